@@ -89,7 +89,11 @@ def main():
             shutil.rmtree(dst, ignore_errors=True)
             os.makedirs(dst)
             for fn in os.listdir(src):
-                shutil.copy(os.path.join(src, fn), dst)
+                a = os.path.join(src, fn)
+                if os.path.isdir(a):
+                    shutil.copytree(a, os.path.join(dst, fn))
+                else:
+                    shutil.copy(a, dst)
             meta_out = dict(meta)
             meta_out["origin"] = f"sub-agent, worktree {agent_wt}, change {k}"
             meta_out["demo_cmd"] = meta["demo_cmd"].replace(agent_wt, "<worktree>")
